@@ -27,8 +27,8 @@ func ruleC14(prog *Program, rep *Report) {
 	ruleAccumulatorReset(prog, rep, 1, "jp")
 	ruleRecursionPassesNil(prog, rep, "jp")
 	ruleClassEndpoints(prog, rep, "jp") // digit, hex and letter tests of the path and script parser
-	ruleLoopExit(prog, rep, 100, "jp") // the printers and the parser loop over fragments and ints
-	ruleFloatBits(prog, rep, "jp")     // a float64 constant printed with 32 bits re-parses as another number
+	ruleLoopExit(prog, rep, 100, "jp")  // the printers and the parser loop over fragments and ints
+	ruleFloatBits(prog, rep, "jp")      // a float64 constant printed with 32 bits re-parses as another number
 }
 
 // escape reader of the jp parser: the function that has a switch on a byte
